@@ -1,7 +1,9 @@
 //! Property table: how each claimed property is generated, executed and described.
 
 use crate::runner::{Prop, Tier};
-use crate::{c03, c06, c08, c17, c18};
+#[cfg(feature = "legacy-console")]
+use crate::c18;
+use crate::{c03, c06, c08, c17};
 
 pub struct Meta {
     pub prop: Prop,
@@ -34,6 +36,7 @@ fn c17_gen(rng: &mut crate::rng::Rng, seed: u64, run: u64, tier: &Tier) -> crate
     c17::generate(rng, seed, run, tier.max_len)
 }
 
+#[cfg(feature = "legacy-console")]
 fn c18_gen(rng: &mut crate::rng::Rng, seed: u64, run: u64, tier: &Tier) -> crate::trace::Trace {
     c18::generate(rng, seed, run, tier.max_len)
 }
@@ -60,6 +63,7 @@ pub fn lookup(id: &str) -> Option<Meta> {
             essential_probes: &["fault_on_first_inner_write", "fault_on_later_inner_write", "short_data_write_reported", "error_reached_caller", "history_delivered_everything"],
             fault_free: false,
         }),
+        #[cfg(feature = "legacy-console")]
         "C18" => Some(Meta {
             prop: Prop { id: "C18", tag: 0xC18, generate: c18_gen, execute: c18::execute, systematic: Some(c18::systematic) },
             level: "fault_enumeration",
@@ -182,4 +186,7 @@ pub fn lookup(id: &str) -> Option<Meta> {
     }
 }
 
+#[cfg(feature = "legacy-console")]
 pub const ALL: [&str; 5] = ["C03", "C06", "C08", "C17", "C18"];
+#[cfg(not(feature = "legacy-console"))]
+pub const ALL: [&str; 4] = ["C03", "C06", "C08", "C17"];
